@@ -595,6 +595,50 @@ func cacheFamilies() []graphFamily {
 
 // ---- C18 ----
 
+// c18IDScopes: a sub-schema that opens a scope of its own with an absolute `id` and refers, fragment-only, to a
+// definition that exists both inside that scope and in the enclosing document (other content): which of the two is
+// meant does not depend on whether the enclosing document happens to be in the supplied cache.
+func c18IDScopes(c *Ctx) {
+	for i := 0; i < c.N(12, 200); i++ {
+		name := []string{"name", "leaf", "a b", "n~1", "Value"}[c.Intn(5)]
+		id := []string{"http://schemas.example.com/thing.json", "https://ids.example/v1/s.json", "http://h.example/api/scoped.json"}[c.Intn(3)]
+		rootURL := []string{"file:///v/r/root.json", "http://h.example/api/root.json"}[c.Intn(2)]
+		frag := (&url.URL{Fragment: "/definitions/" + refgraph.PtrEscape(name)}).EscapedFragment()
+		ref := wire.ObjV(wire.M("$ref", wire.StrV("#"+frag)))
+		scoped := wire.ObjV(wire.M("id", wire.StrV(id)), wire.M("type", wire.StrV("object")),
+			wire.M("definitions", wire.ObjV(wire.M(name, wire.ObjV(wire.M("type", wire.StrV("integer")), wire.M("description", wire.StrV("inside the id scope")))))),
+			wire.M("properties", wire.ObjV(wire.M("n", ref))))
+		defs := wire.ObjV(wire.M(name, wire.ObjV(wire.M("type", wire.StrV("string")), wire.M("description", wire.StrV("in the enclosing document")))),
+			wire.M("scoped", scoped), wire.M("user", wire.ObjV(wire.M("type", wire.StrV("object")), wire.M("properties", wire.ObjV(wire.M("u", ref))))))
+		w := &refgraph.World{Root: rootURL, Docs: map[string]wire.V{rootURL: wire.ObjV(wire.M("swagger", wire.StrV("2.0")),
+			wire.M("info", wire.ObjV(wire.M("title", wire.StrV("t")), wire.M("version", wire.StrV("1")))), wire.M("paths", wire.ObjV()), wire.M("definitions", defs))}}
+		wj := worldJSON(w)
+		calls := rootElements(w, "definitions", "schemaWithBase")
+		reuse := newTCache(&tracer{})
+		for _, call := range calls {
+			refRes := runEntry(w, call, nil, tracedLoader(w, &tracer{}, nil))
+			if refRes.Panic != "" || refRes.Hang || refRes.Err != "" {
+				c.Hit("id-scope:reference-call-fails")
+				continue
+			}
+			try := func(mode string, cache spec.ResolutionCache) {
+				got := runEntry(w, call, cache, tracedLoader(w, &tracer{}, nil))
+				c.Count(fmt.Sprint("id-scope", wj, call, mode), true)
+				c.Hit("id-scope:" + mode)
+				if got.Panic != "" || got.Hang || got.Err != refRes.Err || got.Out != refRes.Out {
+					c.Fail(Failure{Kind: "oracle", Sig: "C18:cache-changes-result", What: fmt.Sprintf("supplying a cache (%s) changes the result of expanding /%s: without a cache %s, with it %s %s%s", mode, strings.Join(call.Path, "/"), clip(refRes.Out), clip(got.Out), got.Err, got.Panic),
+						Case: map[string]interface{}{"world": wj, "call": call, "mode": mode, "family": "id-scope"}})
+				}
+			}
+			try("fresh", newTCache(&tracer{}))
+			pre := newTCache(&tracer{})
+			pre.preload(w, []string{rootURL})
+			try("preloaded", pre)
+			try("reused", reuse)
+		}
+	}
+}
+
 // c18Dangling: the same accounting when some pointer targets are missing from documents that load fine and the
 // expansion continues on errors: a document that was fetched (or is in the supplied cache) is not requested again
 // because a pointer into it leads nowhere.
@@ -684,6 +728,7 @@ func c18Dangling(c *Ctx, w *refgraph.World, g *refgraph.Graph, fam string) {
 
 func runC18(c *Ctx) {
 	c.Res.Rule = "random multi-document reference graphs (5 families); every definition of the root through ExpandSchemaWithBasePath (and, for single-document worlds, every definition/parameter/response through ExpandSchema / ExpandParameterWithRoot / ExpandResponseWithRoot) with: no cache, a fresh instrumented cache, every subset of the documents pre-loaded (all subsets up to 4 documents, 8 random ones beyond), one cache reused over all elements of the root in sequence; oracle: same outcome as without a cache (by meaning for cyclic graphs), no URL requested twice from the loader, no pre-loaded URL requested; every recorded trace checked by the model's validator and replayed through the model's interpreter; non-trivial = run whose trace has at least one loader call or cache hit; distinct by (world, element, pre-load set)"
+	c18IDScopes(c)
 	n := c.N(60, 1500)
 	fams := cacheFamilies()
 	for i := 0; i < n; i++ {
